@@ -119,7 +119,7 @@ def readFrame (H : Bytes → Bytes) (j : Nat) (r : Bytes) : FrameRead :=
   let db := fromBE ((r.drop 8).take 4)
   let pl := fromBE ((r.drop 12).take 4)
   let h := (r.drop 16).take 32
-  if db < 1 ∨ pl < 1 ∨ idx ≠ j then .bad else
+  if db < 1 ∨ pl < 1 ∨ idx ≠ j % 18446744073709551616 then .bad else   -- `stripeIndex` is a uint64 on both sides
   let body := r.drop frameHeaderSize
   if body.length < pl then .bad else
   let payload := body.take pl
